@@ -1,7 +1,11 @@
 //! fvh - runtime-monitoring harness for jix/flussab (see /verif/DESIGN.md).
 #![allow(clippy::all)]
 pub mod alloc;
+pub mod c02;
+pub mod c11;
+pub mod c13;
 pub mod c15;
+pub mod c16;
 pub mod json;
 pub mod prng;
 pub mod sink;
